@@ -2,7 +2,10 @@ module verif/harness
 
 go 1.23.0
 
-require github.com/high-moctane/mocrelay v0.0.0
+require (
+	github.com/high-moctane/mocrelay v0.0.0
+	github.com/mattn/go-sqlite3 v1.14.27
+)
 
 require (
 	github.com/btcsuite/btcd/btcec/v2 v2.3.4 // indirect
@@ -10,9 +13,11 @@ require (
 	github.com/coder/websocket v1.8.13 // indirect
 	github.com/decred/dcrd/crypto/blake256 v1.0.0 // indirect
 	github.com/decred/dcrd/dcrec/secp256k1/v4 v4.0.1 // indirect
+	github.com/doug-martin/goqu/v9 v9.19.0 // indirect
 	github.com/google/uuid v1.6.0 // indirect
 	github.com/hashicorp/golang-lru/v2 v2.0.7 // indirect
 	github.com/igrmk/treemap/v2 v2.0.1 // indirect
+	github.com/pierrec/xxHash v0.1.5 // indirect
 	golang.org/x/exp v0.0.0-20220317015231-48e79f11773a // indirect
 	golang.org/x/time v0.11.0 // indirect
 )
